@@ -38,19 +38,26 @@ RULE = ("every set of 1-3 distinct strict orders over 3 alternatives (dynamic pr
         "through the verified checker (cert_vot / cert_alt), ILP = DP on strict profiles; larger instances (ILPs: "
         "7 <= m <= 10, n <= 8; DP: m <= 12): certificates + lower bound from the best of 3 embedded 5-alternative "
         "cores (opt_restrict_mono) + upper bound from the planted certificate (cert_valid_bound). ILP budget: 150 "
-        "calls quick, 2000 thorough. non-trivial = reference optimum (voters or alternatives) >= 1 "
+        "calls quick (220 with the histories), 2600 thorough. non-trivial = reference optimum (voters or alternatives) >= 1 "
         "(large instances: some reported optimum >= 1). Encoding cases (c12.enc, no solver call): for each of the three "
         "ILP functions the variables/bounds, the multiset of constraints and the objective of the python-mip model = "
         "the mirrored model of Model/ILPEnc.v, on every profile of 1-2 weak orders over m <= 2 (thorough: m <= 3) "
         "alternatives and random soc/toc profiles m <= 5, n <= 4; non-trivial = m >= 3 and a non-empty constraint list. "
         "Every k_alternative_deletion call (m <= 12) is also compared with the mirrored dynamic programme c12.elp: "
         "same number of removed alternatives (identical certificates are counted in the distribution). Volume for the "
-        "dynamic programme (no ILP, no brute force): 3000 (thorough 12000) strict profiles with 7-10 alternatives "
+        "dynamic programme (no ILP, no brute force): 2400 (thorough 12000) strict profiles with 7-10 alternatives "
         "(ids from 0, sparse, large), 2-6 votes, impartial culture / perturbed single-peaked: certificate + size = "
         "mirror; plus 300 (1500) profiles with 7 alternatives against the verified reference min_alt_del; plus 200 (1000) "
         "profiles with 11-15 alternatives. On EVERY strict profile (2-15 alternatives) the number of alternatives "
         "removed by k_alternative_deletion and the objective of the alternative-deletion ILP are compared with the "
-        "exact optimum computed by the fast verified reference c12.fast_min_alt (fast_min_alt_correct: = min_alt_del)")
+        "exact optimum computed by the fast verified reference c12.fast_min_alt (fast_min_alt_correct: = min_alt_del). "
+        "Histories (c12.hist): the three functions called several times in several orders on ONE instance object "
+        "(answers judged against the original profile, common.snapshot after every call, returned lists poisoned, "
+        "helpers of the dynamic programme must leave their list arguments unchanged), preceded by another instance "
+        "with the same or overlapping ids in the same worker call, with instance.orders / multiplicity / "
+        "alternatives_name in decoupled storage orders, numpy.int64 ids, and recompute_cardinality_param / "
+        "flatten_strict / full_profile before and between the calls. Index cases: 11-14 alternatives / >= 11 orders "
+        "with the element to delete at index >= 10")
 EXHAUSTIVE = {"quick": "k_alternative_deletion on every set of 1-3 distinct strict orders over 3 alternatives; ILP "
                        "encodings (3 functions) on every profile of 1-2 distinct weak orders over m <= 2 alternatives and "
                        "every single weak order over 3",
@@ -267,7 +274,7 @@ def generate(tier, seed):
     rng = random.Random(1000003 * seed + 12)
     thorough = tier != "quick"
     out = []
-    budget = [150 if not thorough else 2000]
+    budget = [235 if not thorough else 2700]
 
     def ilp_flags(want=F_VOT | F_ALT):
         n = bin(want & 3).count("1")
@@ -343,7 +350,7 @@ def generate(tier, seed):
         out.append(mk(alts, prof, F_DP, 0, core=pick_core(rng, alts, prof, 5), pv=pv, pa=pa, family=fam, large=1))
     # ---- volume for the dynamic programme (no ILP, no brute-force reference): k_alternative_deletion against the mirrored
     #      dynamic programme c12.elp (same number of removed alternatives) + certificate, 7 <= m <= 10, 2 <= n <= 6
-    for i in range(3000 if not thorough else 12000):
+    for i in range(2400 if not thorough else 12000):
         m = rng.choice([7, 7, 8, 8, 9, 10])
         alts = rand_ids(rng, m)
         n = rng.randint(2, 6)
@@ -365,6 +372,125 @@ def generate(tier, seed):
         fam = ["ic", "perturbed-sp"][i % 2]
         prof = impartial_culture(rng, alts, n) if fam == "ic" else perturbed_sp(rng, alts, n)
         out.append(mk(alts, prof, F_DP, 1, family="ref7-" + fam))
+    # ---- indices >= 10: 11-14 alternatives with the alternatives that have to be deleted LAST in alternatives_name
+    #      (index 10, 11, .. : "delAlt_10" vs "delAlt_0"), and >= 11 distinct orders with the spoiler orders last
+    #      ("delVoter_10"); certificates through cert_alt / cert_vot, upper bound from the planted certificate
+    def sp_lib(alts_, votes_):
+        """generation only: is the strict profile single-peaked (library recogniser of C03; the judge stays the model)"""
+        from preflibtools.properties.subdomains.ordinal.singlepeaked.singlepeakedness import is_single_peaked
+        return bool(is_single_peaked(ordinal_instance([([[a] for a in v], 1) for v in votes_], data_type="soc", alts=list(alts_)))[0])
+
+    def idx10_alt(m, s, weak):
+        """single-peaked on the first m - s alternatives; the s spoilers are the LAST ones of alternatives_name and each
+        of them has to go (no other single deletion repairs the profile when s = 1)"""
+        for _ in range(30):
+            ids = rand_ids(rng, m)
+            good, bad = ids[:m - s], ids[m - s:]
+            axis = rand_perm(rng, good)
+            votes = []
+            for _ in range(rng.randint(4, 5)):
+                v = [c[0] for c in planted_strict(rng, axis)]
+                for b in bad:
+                    v.insert(rng.randint(0, len(v)), b)
+                votes.append(v)
+            if len(set(map(tuple, votes))) < len(votes):
+                continue
+            if s == 1 and any(sp_lib([a for a in ids if a != x], [[a for a in v if a != x] for v in votes]) for x in good):
+                continue
+            if sp_lib(ids, votes):
+                continue
+            prof = [[[a] for a in v] for v in votes]
+            if weak:
+                prof = [([sorted(o[0] + o[1])] + o[2:]) if i % 2 == 0 else o for i, o in enumerate(prof)]
+            return ids, prof, [axis + bad, sorted(bad)]
+        return None
+
+    def idx10_vot(nbad):
+        for _ in range(30):
+            m = rng.randint(5, 6)
+            ids = rand_ids(rng, m)
+            axis = rand_perm(rng, ids)
+            good = []
+            while len(good) < rng.randint(10, 12):
+                v = planted_strict(rng, axis)
+                if v not in good:
+                    good.append(v)
+            bad = []
+            while len(bad) < nbad:
+                v = [[a] for a in rand_perm(rng, ids)]
+                if v not in good and v not in bad and not sp_lib(ids, [[c[0] for c in o] for o in good[:0] + [v]] +
+                                                                 [[c[0] for c in o] for o in good]):
+                    bad.append(v)
+            return ids, good + bad, [axis, list(range(len(good), len(good) + nbad))]
+        return None
+
+    for i in range(6 if not thorough else 60):
+        m = rng.randint(11, 13 if not thorough else 14)
+        r = idx10_alt(m, [1, 1, 2][i % 3], weak=(i % 2 == 1))
+        if r and budget[0] >= 1:
+            budget[0] -= 1
+            ids, prof, pa = r
+            out.append(mk(ids, prof, F_ALT | F_DP, 0, pa=pa, family="idx10-alt", large=1))
+    for i in range(5 if not thorough else 40):
+        r = idx10_vot(1 + i % 2)
+        if r and budget[0] >= 1:
+            budget[0] -= 1
+            ids, prof, pv = r
+            out.append(mk(ids, prof, F_VOT, 0, pv=pv, family="idx10-vot", large=1))
+    # ---- histories on one instance object (round-5 lessons); see the c12.hist section
+    def hist(alts, prof, script, variant, pre, **tags):
+        dt = 0 if is_strict(prof) else 2
+        script = [b for b in script if dt == 0 or b != F_DP]
+        if script:
+            out.append(case("c12.hist", [dt, list(alts), prof, script, variant, pre], m=len(alts), n=len(prof), **tags))
+
+    def earlier(alts):
+        """another profile asked first in the same worker call: either another size with overlapping ids, or the SAME
+        ids (same order) with a different content; ending early: already single-peaked or a single vote"""
+        if rng.random() < 0.5:
+            ids = list(alts)
+        else:
+            m0 = rng.choice([max(2, len(alts) - 2), len(alts) + 1])
+            ids = list(alts)[:m0] + [x for x in range(60, 70)][:max(0, m0 - len(alts))]
+            ids = rand_perm(rng, ids)
+        if rng.random() < 0.5:
+            p0 = [planted_strict(rng, rand_perm(rng, ids))]
+        else:
+            ax = rand_perm(rng, ids)
+            p0 = distinct_semantic([planted_strict(rng, ax) for _ in range(3)])
+        return ids, p0
+
+    dp_scripts = [[F_DP, F_DP], [F_DP, F_DP, F_DP]]
+    for i in range(120 if not thorough else 1200):
+        m = rng.randint(3, 6)
+        alts = rand_ids(rng, m)
+        prof = impartial_culture(rng, alts, rng.randint(2, 4)) if i % 2 else perturbed_sp(rng, alts, rng.randint(2, 4))
+        pre = []
+        if i % 3 == 0:
+            ids, p0 = earlier(alts)
+            pre = [0, ids, p0, [F_DP]]
+        hist(alts, prof, dp_scripts[i % 2], rng.choice([0, 1, 2, 3, 4, 8, 16, 31, 27]), pre, family="hist-dp")
+    ilp_scripts = [[F_VOT, F_ALT, F_DP, F_ALT, F_VOT], [F_DP, F_VOT, F_VOT, F_ALT, F_ALT, F_DP], [F_ALT, F_VOT, F_ALT],
+                   [F_VOT, F_DP, F_VOT], [F_ALT, F_DP, F_ALT, F_DP]]
+    for i in range(14 if not thorough else 120):
+        m = rng.randint(3, 5)
+        alts = rand_ids(rng, m)
+        weak = (i % 3 == 2)
+        fam = ["vot-planted", "alt-planted", "random", "toptie"][i % 4]
+        if fam == "toptie" and not weak:
+            fam = "random"
+        prof, _, _ = make_profile(rng, alts, rng.randint(2, 4), weak, fam)
+        script = ilp_scripts[i % len(ilp_scripts)]
+        n_ilp = sum(1 for b in script if b != F_DP)
+        pre = []
+        if i % 2 == 0:
+            ids, p0 = earlier(alts)
+            pre = [0, ids, p0, [F_ALT, F_VOT]]
+            n_ilp += 2
+        if budget[0] < n_ilp:
+            break
+        budget[0] -= n_ilp
+        hist(alts, prof, script, [31, 0, 7, 24, 5, 18, 9][i % 7], pre, family="hist-ilp")
     # ---- encoding correspondence (no solver call): exhaustive tiny + random m <= 5, n <= 4, soc and toc
     def enc(alts, prof, **tags):
         dt = 0 if is_strict(prof) else 2
@@ -389,6 +515,8 @@ def generate(tier, seed):
             fam = "random"
         prof, _, _ = make_profile(rng, alts, rng.randint(1, 4), weak, fam)
         enc(alts, prof, family="enc-" + fam)
+    # spread the heavy cases over the worker / oracle partitions (deterministic)
+    random.Random(7 * seed + 1).shuffle(out)
     return out
 
 
@@ -871,8 +999,246 @@ def _enc_shrink(c):
                 yield dict(c, payload=[kind, 0 if is_strict(np_) else 2, na, np_])
 
 
+
+# ================================================================================================ c12.hist
+# Histories on ONE instance object (round-5 lessons: purity, aliasing of results, object lifetime, storage order,
+# foreign number types, maintenance API).  payload [dt, alts, profile, script, variant, pre]
+#   script   list of function bits (1 voter ILP, 2 alternative ILP, 4 dynamic programme) called in that order on the SAME
+#            instance; every answer is judged against the model of the ORIGINAL profile (reference optimum + certificate)
+#   variant  bit 1: instance.orders reversed w.r.t. the key order of instance.multiplicity
+#            bit 2: multiplicity dict rebuilt in another key order      (alternatives_name is in the order of `alts`,
+#            bit 4: alternatives are numpy.int64                          which the generator does not sort)
+#            bit 8: recompute_cardinality_param(), flatten_strict(), full_profile() before the first call
+#            bit 16: the same maintenance calls between the calls, their results poisoned in place
+#   pre      [] or [dt0, alts0, profile0, script0]: another instance (other size, overlapping ids, usually already
+#            single-peaked or a single vote) is built and asked FIRST in the same worker call (mutable defaults,
+#            module-level tables); its answers are judged as well.
+# After every call: common.snapshot / snap_diff of the instance, the returned axis / deleted list are copied and then
+# POISONED in place (junk appended, reversed, cleared).  For strict profiles the helper functions of the dynamic
+# programme are also called with lists of votes, which must be unchanged for the caller.
+FN_KEY = {F_VOT: "vot", F_ALT: "alt", F_DP: "dp"}
+
+
+def _build_variant(dt, alts, profile, variant):
+    import numpy as np
+    conv = (lambda a: np.int64(a)) if variant & 4 else (lambda a: a)
+    prof = [[[conv(a) for a in cl] for cl in o] for o in profile]
+    inst = ordinal_instance([(o, 1) for o in prof], data_type=DT[dt], alts=[conv(a) for a in alts])
+    if variant & 1:
+        inst.orders.reverse()
+    if variant & 2 and len(inst.multiplicity) > 1:
+        items = list(inst.multiplicity.items())
+        items = items[1:] + items[:1]
+        inst.multiplicity.clear()
+        inst.multiplicity.update(items)
+    return inst
+
+
+def _poison(obj):
+    """damage a returned list in place"""
+    try:
+        if isinstance(obj, list):
+            obj.append(987654321)
+            obj.reverse()
+            if len(obj) > 2:
+                del obj[1]
+    except Exception:
+        pass
+
+
+def _maintenance(inst, dt, problems, where):
+    from .common import snapshot, snap_diff
+    before = snapshot(inst)
+    inst.recompute_cardinality_param()
+    views = []
+    if dt == 0:
+        views.append(inst.flatten_strict())
+    views.append(inst.full_profile())
+    d = snap_diff(before, snapshot(inst))
+    if d:
+        problems.append("maintenance calls %s changed the instance: %s" % (where, d))
+    for v in views:
+        _poison(v)
+    d = snap_diff(before, snapshot(inst))
+    if d:
+        problems.append("a list returned by flatten_strict()/full_profile() %s aliases the instance: %s" % (where, d))
+
+
+def _call_one(bit, inst, dt, problems, tag, profile=None):
+    """one call on inst: [answer in the format of _opt_impl, or None] ; snapshot comparison ; poisoning.
+    Deleted voters are positions in instance.orders: they are mapped back to positions in `profile` (the variants
+    reorder instance.orders)."""
+    from .common import snapshot, snap_diff
+    from preflibtools.properties.subdomains.ordinal.singlepeaked import singlepeakedness as SPM
+    from preflibtools.properties.subdomains.ordinal.singlepeaked.k_alternative_deletion import k_alternative_deletion
+    before = snapshot(inst)
+    names = list(inst.alternatives_name)
+    if bit == F_VOT:
+        r = _ilp(SPM.approx_SP_voter_deletion_ILP, inst)
+    elif bit == F_ALT:
+        r = _ilp(SPM.approx_SP_alternative_deletion_ILP, inst)
+    else:
+        r = guarded(k_alternative_deletion, inst)
+    d = snap_diff(before, snapshot(inst))
+    if d:
+        problems.append("%s %s modified the instance it was asked about: %s" % (FN_KEY[bit], tag, d))
+    if r[0] != 0:
+        return r
+    if bit == F_DP:
+        axis, removed = r[1]
+        ans = [0, [int(a) for a in axis], [int(a) for a in removed]]
+        _poison(axis)
+        _poison(removed)
+    else:
+        obj, status, axis, deleted = r[1]
+        if axis is None or deleted is None or obj is None:
+            return [0, None, str(status), None, None]
+        if bit == F_VOT:
+            keys = [tuple(tuple(int(a) for a in cl) for cl in o) for o in profile]
+            pos = [keys.index(tuple(tuple(int(a) for a in cl) for cl in o)) for o in inst.orders]
+            dl = [pos[int(v)] for v in deleted]
+        else:
+            dl = [int(names[int(i)]) for i in deleted]
+        ans = [0, _objective(obj), str(status), [int(a) for a in axis], dl]
+        _poison(axis)
+        _poison(deleted)
+    d = snap_diff(before, snapshot(inst))
+    if d:
+        problems.append("a list returned by %s %s aliases the instance: poisoning it changed %s" % (FN_KEY[bit], tag, d))
+    return ans
+
+
+def _helpers_keep_arguments(inst, alts, profile, problems):
+    """the helpers of the dynamic programme take lists of votes / alternatives: they must not modify them"""
+    import copy
+    import importlib
+    K = importlib.import_module("preflibtools.properties.subdomains.ordinal.singlepeaked.k_alternative_deletion")
+    votes = [[c[0] for c in o] for o in profile]
+    a_l, v_l = list(alts), [list(v) for v in votes]
+    a_0, v_0 = copy.deepcopy(a_l), copy.deepcopy(v_l)
+
+    def chk(what):
+        if a_l != a_0 or v_l != v_0:
+            problems.append("%s modified the list of alternatives / votes of its caller" % what)
+
+    L = K.get_L_sets(a_l, v_l)
+    chk("get_L_sets")
+    L0 = copy.deepcopy(L)
+    m = len(a_l)
+    X = K.eligible_alternatives(1, m, frozenset(), L, v_l)
+    chk("eligible_alternatives")
+    if L != L0:
+        problems.append("eligible_alternatives modified the L sets")
+    x = next(iter(L[1])) if L.get(1) else a_l[0]
+    K.last_check(v_l, [], [x, x])
+    chk("last_check")
+    ax = [None]
+    K.place(ax, frozenset([x]), v_l)
+    chk("place")
+    if ax != [None]:
+        problems.append("place modified the axis of its caller")
+    res = K.longest_single_peaked_axis(inst, a_l)
+    chk("longest_single_peaked_axis")
+    _poison(res[0])
+    _poison(res[1])
+    chk("poisoning the result of longest_single_peaked_axis")
+
+
+def _hist_impl(c):
+    dt, alts, profile, script, variant, pre = c["payload"]
+    problems, answers = [], []
+    if pre:
+        dt0, alts0, prof0, script0 = pre
+        inst0 = _build_variant(dt0, alts0, prof0, 0)
+        for bit in script0:
+            answers.append([0, bit, _call_one(bit, inst0, dt0, problems, "(earlier instance)", prof0)])
+    inst = _build_variant(dt, alts, profile, variant)
+    if variant & 8:
+        _maintenance(inst, dt, problems, "before the first call")
+    if dt == 0 and F_DP in script:
+        _helpers_keep_arguments(inst, alts, profile, problems)
+    for i, bit in enumerate(script):
+        answers.append([1, bit, _call_one(bit, inst, dt, problems, "(call %d of the history)" % (i + 1), profile)])
+        if variant & 16:
+            _maintenance(inst, dt, problems, "after call %d" % (i + 1))
+    return {"answers": answers, "problems": problems}
+
+
+def _hist_subcases(c, r):
+    dt, alts, profile, script, variant, pre = c["payload"]
+    out = []
+    for which, bit, ans in r["answers"]:
+        d, a, p = (pre[0], pre[1], pre[2]) if which == 0 else (dt, alts, profile)
+        sub = case("c12.opt", [d, a, p, bit, 1, [], [], []])
+        out.append((sub, {FN_KEY[bit]: ans}))
+    return out
+
+
+def _hist_oracle_requests(c, r):
+    if not isinstance(r, dict) or "answers" not in r:
+        return []
+    reqs = []
+    for sub, rr in _hist_subcases(c, r):
+        reqs.extend(_opt_oracle_requests(sub, rr))
+    return reqs
+
+
+def _hist_judge(c, r, mres):
+    if r["problems"]:
+        return {"kind": "mismatch", "theorem": "purity (the functions are functions of the profile)",
+                "reason": "; ".join(r["problems"][:3])}
+    pos = 0
+    for i, (sub, rr) in enumerate(_hist_subcases(c, r)):
+        n = len(_opt_oracle_requests(sub, rr))
+        j = _opt_judge(sub, rr, mres[pos:pos + n])
+        pos += n
+        if j:
+            j = j if isinstance(j, dict) else {"kind": "mismatch", "reason": str(j)}
+            j["reason"] = "answer %d of the history (%s on the %s): %s" % (
+                i + 1, list(rr)[0], "earlier instance" if r["answers"][i][0] == 0 else "instance under test", j.get("reason"))
+            return j
+    return None
+
+
+def _hist_stats(c, r, mres):
+    dt, alts, profile, script, variant, pre = c["payload"]
+    lab = ["history %s m=%d" % (DT[dt], len(alts)), "history calls %d" % len(script)]
+    lab += ["history variant bit %d" % b for b in (1, 2, 4, 8, 16) if variant & b]
+    if pre:
+        lab.append("history with an earlier instance")
+    lab += ["history call %s" % FN_KEY[b] for b in script]
+    return lab
+
+
+def _hist_describe(c):
+    dt, alts, profile, script, variant, pre = c["payload"]
+    return {"op": c["op"], "data_type": DT[dt], "alternatives": alts, "orders": profile,
+            "calls on one instance": [FN_KEY[b] for b in script], "variant bits": variant, "earlier instance": pre}
+
+
+def _hist_shrink(c):
+    dt, alts, profile, script, variant, pre = c["payload"]
+    if pre:
+        yield dict(c, payload=[dt, alts, profile, script, variant, []])
+    for b in (1, 2, 4, 8, 16):
+        if variant & b:
+            yield dict(c, payload=[dt, alts, profile, script, variant & ~b, pre])
+    if len(script) > 1:
+        for i in range(len(script)):
+            yield dict(c, payload=[dt, alts, profile, script[:i] + script[i + 1:], variant, pre])
+    if len(profile) > 1:
+        for i in range(len(profile)):
+            np_ = profile[:i] + profile[i + 1:]
+            nd = 0 if is_strict(np_) else 2
+            sc = [b for b in script if nd == 0 or b != F_DP]
+            if sc:
+                yield dict(c, payload=[nd, alts, np_, sc, variant, pre])
+
+
 # ================================================================================================ dispatch
 def impl(c):
+    if c["op"] == "c12.hist":
+        return _hist_impl(c)
     return _enc_impl(c) if c["op"] == "c12.enc" else _opt_impl(c)
 
 
@@ -880,26 +1246,38 @@ def oracle_requests(c, r):
     if c["op"] == "c12.enc":
         kind, dt, alts, profile = c["payload"]
         return [("c12.ilp_constraints", [kind, alts, profile])]
+    if c["op"] == "c12.hist":
+        return _hist_oracle_requests(c, r)
     return _opt_oracle_requests(c, r)
 
 
 def judge(c, r, mres):
+    if c["op"] == "c12.hist":
+        return _hist_judge(c, r, mres)
     return _enc_judge(c, r, mres) if c["op"] == "c12.enc" else _opt_judge(c, r, mres)
 
 
 def nontrivial(c, r, mres):
     if c["op"] == "c12.enc":
         return len(c["payload"][2]) >= 3 and isinstance(r, dict) and len(r.get("cstrs", [])) > 0
+    if c["op"] == "c12.hist":
+        return len(c["payload"][3]) >= 2
     return _opt_nontrivial(c, r, mres)
 
 
 def stats(c, r, mres):
+    if c["op"] == "c12.hist":
+        return _hist_stats(c, r, mres)
     return _enc_stats(c, r, mres) if c["op"] == "c12.enc" else _opt_stats(c, r, mres)
 
 
 def describe(c):
+    if c["op"] == "c12.hist":
+        return _hist_describe(c)
     return _enc_describe(c) if c["op"] == "c12.enc" else _opt_describe(c)
 
 
 def shrink(c):
+    if c["op"] == "c12.hist":
+        return _hist_shrink(c)
     return _enc_shrink(c) if c["op"] == "c12.enc" else _opt_shrink(c)
